@@ -31,7 +31,23 @@ such a call is **never due**: it can only resolve with the inner result (`Caller
 
 Service handles are not part of the model: the fate of an inner call is a function of its own
 caller's operations and the clock (`independent`), so it cannot depend on which handles of the
-service are alive (`manual dropsvc` is answered by the driver: later arrivals are `noop`).
+service are alive (`manual dropsvc` is answered by the driver: later arrivals are `noop`).  The same
+holds for the *service* a call goes through when several are built from one layer value, and for the
+handle of it the call is made on (a kept handle used again while an earlier call is in flight, a clone
+taken after a call): a `TimeLimiter` holds nothing but the wrapped service and the shared, immutable
+configuration (lib.rs:119-131), so `arrive … svc=<k> h=<j>` is the `arrive` it would be without these
+words, and `manual forget …` (a handle, a service, the layer value dropped) is no operation at all.
+What the model says about it is `services_independent` (Props): for ANY division of the callers into
+groups — services, handles — each group's records are those of the run that contains only that
+group's operations and the clock.
+
+**Entry points** (config.rs, layer.rs, error.rs).  The builder can be obtained in three ways
+(`Start`), all the same default configuration; `.name(..)` and the listener setters leave the timeout
+source and the mode alone (`Setter.name`, `Setter.listen`); the timeout source of a configuration as a
+stand-alone `TimeoutFn` value (`Src`: `FixedTimeout::new(d)` / `DynamicTimeout::new(f)`), copied any
+number of times through `Clone` / `clone_box`, answers `get_timeout` exactly as the layer does
+(`probeSource`); what the accessors of `TimeLimiterError` and the conversion into `ResilienceError`
+answer for each result the model can deliver is `isTimeout` / `intoInner` / `asResilience`.
 
 **Readiness** (lib.rs:165-167): `TimeLimiter::poll_ready` is `self.inner.poll_ready(cx).map_err(Inner)` —
 `Pending` and `Err` of the wrapped service propagate to the caller, who then makes no call at all
@@ -81,6 +97,8 @@ inductive Setter
   | dur (ms : Tmo)          -- `.timeout_duration(ms)`
   | fn (dflt : Tmo)         -- `.timeout_fn(f)`; `dflt`: what `f` returns for a request without its own timeout
   | cancel (b : Bool)       -- `.cancel_running_future(b)`
+  | name (s : String)       -- `.name(s)`: observability only
+  | listen (kind : Nat)     -- `.on_success(f)` (0) / `.on_error(f)` (1) / `.on_timeout(f)` (2): observability only
 deriving Repr, DecidableEq
 
 def defaultCfg : Cfg := { timeout := 5000, cancel := true, dyn := false }
@@ -89,9 +107,61 @@ def applySetter (cfg : Cfg) : Setter → Cfg
   | .dur ms => { cfg with timeout := ms, dyn := false }
   | .fn d => { cfg with timeout := d, dyn := true }
   | .cancel b => { cfg with cancel := b }
+  | .name _ => cfg
+  | .listen _ => cfg
 
 /-- the configuration `builder().s₁.s₂.….build()` ends up with -/
 def build (chain : List Setter) : Cfg := chain.foldl applySetter defaultCfg
+
+/-- where the builder comes from: `TimeLimiterLayer::builder()` (layer.rs:108), `TimeLimiterConfigBuilder::new()`
+(config.rs:157), `TimeLimiterConfigBuilder::default()` (config.rs:148, which is `new()`) -/
+inductive Start
+  | builder
+  | new
+  | dflt
+deriving Repr, DecidableEq
+
+/-- what the builder starts from: in every case a fixed timeout of 5 s, cancelling -/
+def startCfg : Start → Cfg
+  | .builder => defaultCfg
+  | .new => defaultCfg
+  | .dflt => defaultCfg
+
+/-- the configuration `<start>.s₁.s₂.….build()` ends up with -/
+def buildFrom (st : Start) (chain : List Setter) : Cfg := chain.foldl applySetter (startCfg st)
+
+/-! ## the timeout source as a value of its own
+
+`FixedTimeout::new(d)` (config.rs:30) answers `d` for every request; `DynamicTimeout::new(f)` (config.rs:63)
+answers `f(req)` — here: the request's own timeout, else the default the closure was built with.  Both are
+`Clone` and can be boxed through `TimeoutFn::clone_box` (config.rs:40, 54, 76); a copy is the same source. -/
+
+inductive Src
+  | fixed (t : Tmo)
+  | dynamic (dflt : Tmo)
+deriving Repr, DecidableEq
+
+/-- `get_timeout(&req)`; `own`: the timeout the request carries, if any -/
+def Src.get : Src → Option Tmo → Tmo
+  | .fixed t, _ => t
+  | .dynamic d, own => own.getD d
+
+/-- one copy: `Clone::clone` of the concrete value, or `TimeoutFn::clone_box` (of the value, or of a boxed copy) -/
+inductive Copy
+  | clone
+  | box
+deriving Repr, DecidableEq
+
+def Src.copy (s : Src) : Copy → Src
+  | .clone => s
+  | .box => s
+
+/-- the source a configuration asks for, constructed stand-alone with the arguments of its timeout setter -/
+def Cfg.source (cfg : Cfg) : Src := if cfg.dyn then .dynamic cfg.timeout else .fixed cfg.timeout
+
+/-- `probe source`: that source, copied along `path`, asked for the timeout of a request -/
+def probeSource (cfg : Cfg) (path : List Copy) (own : Option Tmo) : Tmo :=
+  (path.foldl Src.copy cfg.source).get own
 
 /-- the call future -/
 inductive Outer
@@ -255,6 +325,14 @@ inductive Op
   | refused (c : Nat) (err : Bool)
 deriving Repr, DecidableEq
 
+/-- the caller an operation belongs to (the clock belongs to nobody) -/
+def Op.caller : Op → Option Nat
+  | .arrive c _ _ => some c
+  | .poll c => some c
+  | .drop c => some c
+  | .adv _ => none
+  | .refused c _ => some c
+
 /-- what a caller whose `poll_ready` was not `Ready(Ok)` is told (harness: `notready`, or the rendered
 readiness error of the scripted inner service, `IErr { kind: 9, v: 0 }` wrapped in `TimeLimiterError::Inner`) -/
 def refusal (err : Bool) : Res := if err then .inner 9 0 else .notReady
@@ -264,6 +342,31 @@ def CRes.toRes (k : Nat) : CRes → Res
   | .err kd => .inner kd k
   | .panic => .panic
   | .timeout => .timeout
+
+/-! ## what the accessors of the error type say (error.rs:33-60)
+
+`TimeLimiterError::is_timeout`, `into_inner`, and `ResilienceError::from`, for the results the model delivers
+(`Res.timeout` = `Err(Timeout)`, `Res.inner kd v` = `Err(Inner(e))`; everything else is not an error of the layer). -/
+
+def isTimeout : Res → Bool
+  | .timeout => true
+  | _ => false
+
+/-- `into_inner()`: the inner error (kind, serial), if any -/
+def intoInner : Res → Option (Nat × Nat)
+  | .inner kd v => some (kd, v)
+  | _ => none
+
+/-- `ResilienceError` as far as the time limiter produces it -/
+inductive RErr
+  | timeout (layer : String)
+  | application (kind v : Nat)
+deriving Repr, DecidableEq
+
+def asResilience : Res → Option RErr
+  | .timeout => some (.timeout "time_limiter")
+  | .inner kd v => some (.application kd v)
+  | _ => none
 
 def toEv (c k : Nat) : CEv → Ev
   | .called => .innerCall c k
@@ -420,7 +523,8 @@ def parseRd (kv : Kv) : Rd :=
   { script := (kv.str "ready" "").toList.map (fun ch => if ch = 'p' then RAns.pending else if ch = 'e' then .err else .ready),
     recMs := kv.nat "rec" 0, recAll := kv.nat "recall" 0 != 0 }
 
-/-- `d<ms>` / `f<ms>` / `dmax` / `fmax` / `c0` / `c1`; anything else is skipped (as the harness does) -/
+/-- `d<ms>` / `f<ms>` / `dmax` / `fmax` / `c0` / `c1` / `n<text>` / `ls` `le` `lt`; anything else is skipped (as the
+harness does) -/
 def parseSetter (w : String) : Option Setter :=
   let arg := (w.drop 1).toString.toNat?
   let t := parseTmo (w.drop 1).toString
@@ -431,7 +535,23 @@ def parseSetter (w : String) : Option Setter :=
     | some 0 => some (.cancel false)
     | some 1 => some (.cancel true)
     | _ => none
+  else if w.startsWith "n" then some (.name (w.drop 1).toString)
+  else if w = "ls" then some (.listen 0)
+  else if w = "le" then some (.listen 1)
+  else if w = "lt" then some (.listen 2)
   else none
+
+/-- header word `via=<builder|new|default>` -/
+def parseStart (w : String) : Start :=
+  if w = "new" then .new else if w = "default" then .dflt else .builder
+
+/-- `path=<[cb]*>` of `probe source`; other letters are skipped (as the harness does) -/
+def parsePath (w : String) : List Copy :=
+  w.toList.filterMap fun ch => if ch = 'c' then some Copy.clone else if ch = 'b' then some Copy.box else none
+
+def Tmo.render : Tmo → String
+  | .ms n => toString n
+  | .max => "max"
 
 /-- header word `chain=s1,s2,…`: the builder chain, left to right -/
 def parseChain (s : String) : List Setter := (s.splitOn ",").filterMap parseSetter
@@ -441,11 +561,17 @@ def machine : Machine where
   init kv :=
     let cfg : Cfg :=
       match kv.get "chain" with
-      | some ch => build (parseChain ch)
+      | some ch => buildFrom (parseStart (kv.str "via" "builder")) (parseChain ch)
       | none => { timeout := ((kv.get "timeout").bind parseTmo).getD 5000, cancel := kv.nat "cancel" 1 != 0,
                   dyn := kv.nat "dyn" 0 != 0 }
     (cfg, parseRd kv, init)
   step := fun (cfg, rd, s) ws =>
+    match ws with
+    | "probe" :: "source" :: rest =>
+        -- an observation: the state is untouched
+        let kv := parseKv rest
+        ((cfg, rd, s), [Ev.probe ("source " ++ (probeSource cfg (parsePath (kv.str "path" "")) ((kv.get "timeout").bind parseTmo)).render)])
+    | _ =>
     match parseOp ws with
     | some op => let p := stepR cfg (rd, s) op; ((cfg, p), p.2.log.drop s.log.length)
     | none => ((cfg, rd, s), [])
